@@ -463,7 +463,7 @@ def signature(case, code):
 def main(argv=None):
     args = K.parse_args(argv)
     rep = K.Reporter(PROP, args.tier, args.seed)
-    info, broken = K.standard_prelude(PROP, rep)
+    info, broken = K.standard_prelude(PROP, rep, extra_targets=["theories/DictList/Check.vo"])
     rng = random.Random(args.seed)
 
     if args.replay:
